@@ -214,6 +214,13 @@ def run(ctx):
     _maps.rule_O_ORDER(ctx)
     import tables as _t2
     _t2.rule_T_IDENT_CLASS(ctx, _t2.Tables(ctx), models=("lex",))
+    # naming-law lints over the modules this property lives in (sibling slips: truth<->budget, stamp<->punctuation, left<->right, swapped arguments)
+    import roles as _roles
+    _roles.rule_R_ROLE(ctx, modules=('conversion::string::impl_lexical', 'conversion::string::common', 'lexical::'))
+    _roles.rule_A_NAMES(ctx, modules=('conversion::string::impl_lexical', 'conversion::string::common', 'lexical::'))
+    # every formatter function against its reviewed emission skeleton
+    import emit as _emit
+    _emit.rule_F_SKELETON_ALL(ctx)
     ctx.undecided = ["structural equality of the re-parsed tree for all vocabulary-consistent values (nesting- and value-dependent)"]
     ctx.assumptions = ["nar_dev_utils join helpers and dictionaries behave as summarised (source hash asserted)"]
     ctx.trusted = ["rustc HIR/MIR", "mirfacts driver", "pinned nar_dev_utils 0.42.3 source", "python rule layer"]
